@@ -185,8 +185,7 @@ Example ex_loop_entered :
   (833719, 265381, 1146408, 364913, 58896173)%Z.
 Proof. split; vm_compute; reflexivity. Qed.
 
-(* the error bound 1/(2*10^6) is attained up to the last digit by 1/2000001... (here: a value
-   just under half a unit of the last allowed denominator is rounded, not kept) *)
+(* the error bound is nearly attained: 1/2000001 is rounded to 0, at distance just under 1/(2*10^6) *)
 Example ex_error : limit_den (1 # 2000001) == 0 /\ Qabs (0 - (1 # 2000001)) <= 1 # 2000000.
 Proof. split; [vm_compute; reflexivity|vm_compute; discriminate]. Qed.
 
